@@ -67,16 +67,18 @@ def run_plain(job):
     return out
 
 
-def run_many(jobs, procs=None):
-    import concurrent.futures as cf
-    import multiprocessing as mp
+def run_many(jobs, procs=None, timeout=600.0):
+    from . import procs as pr
     from .sysrun import PROCS
 
-    out = [None] * len(jobs)
-    with cf.ProcessPoolExecutor(max_workers=min(procs or PROCS, max(1, len(jobs))), mp_context=mp.get_context("fork")) as ex:
-        futs = {ex.submit(run_plain, j): i for i, j in enumerate(jobs)}
-        for f in cf.as_completed(futs):
-            out[futs[f]] = f.result()
+    res = pr.run(run_plain, jobs, procs=min(procs or PROCS, max(1, len(jobs))), timeout=timeout)
+    out = []
+    for j, (st, r) in zip(jobs, res):
+        if st == "ok":
+            out.append(r)
+        else:
+            what = f"run did not complete within {r:.0f}s (hang)" if st == "timeout" else f"worker failed: {r[:300]}"
+            out.append({"job": j, "raised": what, "all_inf_batch": False, "iters": [], "weights": [], "evidence": float("nan")})
     return out
 
 
